@@ -25,6 +25,14 @@ def relWhere (nr : List Nat) (p : Nat → Bool) : List Nat :=
 /-- `x[pv]` for an index vector -/
 def take (x : List Nat) (pv : List Nat) : List Nat := pv.filterMap fun i => x[i]?
 
+/-- insertion into an ascending list -/
+def insertSorted (a : Nat) : List Nat → List Nat
+  | [] => [a]
+  | b :: r => if a ≤ b then a :: b :: r else b :: insertSorted a r
+
+/-- `np.sort` of an index vector (duplicates kept) -/
+def sortNat (l : List Nat) : List Nat := l.foldr insertSorted []
+
 structure Part where
   nonrf : List Nat
   rf    : List Nat
@@ -35,8 +43,9 @@ structure Part where
   deriving Repr, DecidableEq
 
 /-- `_make_rb_el`.  `rb = none`: auto-detection, `small i` says whether position `i` of the
-non-rf stiffness passes `abs(k) < 0.005`; `rb = some l`: the user's index vector (kept as given,
-`[]` included). -/
+non-rf stiffness passes `abs(k) < 0.005`; `rb = some l`: the user's index vector, sorted
+ascending (`np.sort`, after the repair 6524aad: `rb` and `_rb` then list the modes in the same
+order; `[]` included). -/
 def mkPart (n : Nat) (rb : Option (List Nat)) (rf : List Nat) (small : Nat → Bool) : Part :=
   let nr := nonrf n rf
   let rb' : List Nat := match rb with
@@ -44,7 +53,7 @@ def mkPart (n : Nat) (rb : Option (List Nat)) (rf : List Nat) (small : Nat → B
     | some l => relWhere nr l.contains
   let rbFull : List Nat := match rb with
     | none => (List.range n).filter (take nr rb').contains
-    | some l => l
+    | some l => sortNat l
   let el' := (List.range nr.length).filter fun i => !rb'.contains i
   let el := (List.range n).filter (take nr el').contains
   { nonrf := nr, rf := rf, rb := rbFull, el := el, rb' := rb', el' := el' }
